@@ -245,3 +245,270 @@ def cell_ratio(m, meta):
         AutoCellRatio.is_supported = saved[2]
         term_image.set_cell_ratio(0.5)
     return {"reproduced": bool(problems), "input": "cell-ratio modes with a scripted cell size", "observed": problems[:3]}
+
+
+def concurrent_first_calls(m, meta):
+    """real threads: N callers released together make the first call of a memoized function whose body is slow; the body has to
+    run once per argument tuple (`cached`) / once per terminal size (`terminal_size_cached`) until invalidated"""
+    import threading, time
+    import term_image.utils as U
+    problems = []
+    N = 8
+
+    def race(fn, argsets, what):
+        barrier = threading.Barrier(N)
+        errors = []
+
+        def worker(i):
+            try:
+                barrier.wait(10)
+                fn(*argsets[i % len(argsets)])
+            except Exception as e:  # noqa: BLE001
+                errors.append(repr(e))
+        ths = [threading.Thread(target=worker, args=(i,)) for i in range(N)]
+        for t in ths:
+            t.start()
+        for t in ths:
+            t.join(30)
+        if errors:
+            problems.append(f"{what}: {errors[0]}")
+
+    for rnd in range(3):
+        runs = {}
+        count_lock = threading.Lock()
+
+        def body(*a):
+            with count_lock:
+                runs[a] = runs.get(a, 0) + 1
+            time.sleep(0.05)
+            return a
+        f = U.cached(body)
+        race(f, [(1,), (2,)], "cached")
+        if any(v != 1 for v in runs.values()) or len(runs) != 2:
+            problems.append(f"cached: {N} concurrent first calls over 2 argument tuples ran the body {dict(runs)} times")
+        f._invalidate_cache()
+        runs.clear()
+        race(f, [(1,)], "cached after invalidation")
+        if runs != {(1,): 1}:
+            problems.append(f"cached: after an invalidation, {N} concurrent calls ran the body {dict(runs)} times")
+        saved = U.get_terminal_size
+        try:
+            U.get_terminal_size = lambda: os.terminal_size((80 + rnd, 24))
+            runs.clear()
+            g = U.terminal_size_cached(body)
+            race(g, [()], "terminal_size_cached")
+            if runs != {(): 1}:
+                problems.append(f"terminal_size_cached: {N} concurrent first calls at one terminal size ran the body {dict(runs)} times")
+            g._invalidate_terminal_size_cache()
+            runs.clear()
+            race(g, [()], "terminal_size_cached after invalidation")
+            if runs != {(): 1}:
+                problems.append(f"terminal_size_cached: after an invalidation, {N} concurrent calls ran the body {dict(runs)} times")
+        finally:
+            U.get_terminal_size = saved
+        if problems:
+            break
+    return {"reproduced": bool(problems), "input": f"{N} threads released by a barrier, body sleeping 50 ms", "observed": problems[:3]}
+
+
+def toggle_publication(m, meta):
+    """one deterministic schedule per toggle: a second thread calls the getter at every point where the toggling thread does not
+    hold the lock that guards the discarded value (just before it takes it, just after it lets go of it, and right after each
+    memoized answer is dropped); once the toggle has returned, the getter must agree with a fresh computation"""
+    import threading
+    import term_image
+    import term_image.utils as U
+    problems = []
+    state = {"ts": (80, 30), "px": (800, 600)}
+
+    def fake_ioctl(fd, req, buf):
+        buf[0], buf[1], buf[2], buf[3] = state["ts"][1], state["ts"][0], state["px"][0], state["px"][1]
+        return 0
+    saved = (U.fcntl.ioctl, U.get_terminal_size, U.query_terminal, U._tty_fd, U._cell_size_lock)
+    saved_read = U.read_tty
+    main = threading.current_thread()
+
+    def elsewhere(fn):
+        out = []
+        t = threading.Thread(target=lambda: out.append(fn()))
+        t.start()
+        t.join(20)
+        if t.is_alive():
+            raise RuntimeError("the second thread did not finish (schedule point inside a critical section?)")
+        return out[0] if out else None
+
+    class SchedLock:
+        """the real RLock, plus schedule points for the main thread"""
+
+        def __init__(self, inner):
+            self.inner, self.depth, self.hook = inner, 0, None
+
+        def __enter__(self):
+            if threading.current_thread() is main and self.depth == 0 and self.hook:
+                self.hook("before-acquire")
+            self.inner.acquire()
+            if threading.current_thread() is main:
+                self.depth += 1
+            return self
+
+        def __exit__(self, *exc):
+            self.inner.release()
+            if threading.current_thread() is main:
+                self.depth -= 1
+                if self.depth == 0 and self.hook:
+                    self.hook("after-release")
+
+        acquire = lambda self, *a, **k: self.__enter__() and True
+        release = lambda self: self.__exit__(None, None, None)
+    try:
+        U.fcntl.ioctl = fake_ioctl
+        U.get_terminal_size = lambda: os.terminal_size(state["ts"])
+        U._tty_fd = 0
+        U.read_tty = lambda *a, **k: b"?62;c"
+        lock = U._cell_size_lock = SchedLock(saved[4])
+
+        def fresh_cell():
+            area = state["px"][::-1] if U._swap_win_size else state["px"]
+            return (area[0] // state["ts"][0], area[1] // state["ts"][1])
+        import sys, inspect
+        code = inspect.unwrap(U.get_cell_size).__code__
+        glines = sorted({l for _, _, l in code.co_lines() if l})
+
+        def inflight(toggle, undo, want=None):
+            """third family of schedules: a getter in another thread has reached line L of get_cell_size (one schedule per line) when
+            the toggle runs in this thread; the getter resumes when the toggle has returned - or after 0.25 s when the toggle is
+            waiting for it.  Afterwards the getter has to agree with a fresh computation."""
+            # which lines does the getter execute in this scenario?
+            undo()
+            U._cell_size_cache[:] = (0,) * 4
+            seen = set()
+
+            def dry(frame, event, arg):
+                if frame.f_code is not code:
+                    return None
+
+                def local(frame, event, arg):
+                    if event == "line":
+                        seen.add(frame.f_lineno)
+                    return local
+                return local
+            sys.settrace(dry)
+            try:
+                U.get_cell_size()
+            finally:
+                sys.settrace(None)
+            for line in [l for l in glines if l in seen]:
+                lock.hook = None
+                undo()
+                U._cell_size_cache[:] = (0,) * 4
+                reached, go = threading.Event(), threading.Event()
+
+                def tracer(frame, event, arg, line=line, reached=reached, go=go):
+                    if frame.f_code is not code:
+                        return None
+
+                    def local(frame, event, arg):
+                        if event == "line" and frame.f_lineno == line and not reached.is_set():
+                            reached.set()
+                            go.wait(0.25)
+                        return local
+                    return local
+
+                def getter(tracer=tracer):
+                    sys.settrace(tracer)
+                    try:
+                        U.get_cell_size()
+                    finally:
+                        sys.settrace(None)
+                g = threading.Thread(target=getter)
+                g.start()
+                if reached.wait(5):
+                    getattr(term_image, toggle)()
+                go.set()
+                g.join(20)
+                if not reached.is_set():
+                    continue                       # this line is not executed in this scenario
+                got = U.get_cell_size()
+                got = tuple(got) if got else None
+                exp = want if want is not None else fresh_cell()
+                if got != exp:
+                    problems.append(f"{toggle}() while a get_cell_size() in another thread stands at line {line} of utils.py -> afterwards "
+                                    f"get_cell_size() = {got}, a fresh computation gives {exp}")
+                    return
+        for toggle in ("enable_win_size_swap", "disable_win_size_swap"):
+            for point in ("before-acquire", "after-release"):
+                lock.hook = None
+                (term_image.disable_win_size_swap if toggle.startswith("enable") else term_image.enable_win_size_swap)()
+                U.get_cell_size()
+                lock.hook = lambda where, point=point: elsewhere(U.get_cell_size) if where == point else None
+                getattr(term_image, toggle)()
+                lock.hook = None
+                got = U.get_cell_size()
+                if tuple(got) != fresh_cell():
+                    problems.append(f"{toggle}() with a get_cell_size() in another thread {point.replace('-', ' (of the lock guarding the cell-size cache) ')} -> afterwards "
+                                    f"get_cell_size() = {tuple(got)}, a fresh computation gives {fresh_cell()}")
+            inflight(toggle, (term_image.disable_win_size_swap if toggle.startswith("enable") else term_image.enable_win_size_swap))
+        # enable_queries: the memoized terminal answers
+        answers = {"on": b"\x1b[6;20;10t\x1b[?62;c"}
+        state["px"] = (0, 0)                       # pixel size only through a query
+        U.query_terminal = lambda *a, **k: (answers["on"] if U._queries_enabled else None)
+        for point in ("before-acquire", "after-release"):
+            lock.hook = None
+            term_image.disable_queries()
+            U._cell_size_cache[:] = (0,) * 4
+            U.get_cell_size()
+            lock.hook = lambda where, point=point: elsewhere(U.get_cell_size) if where == point else None
+            term_image.enable_queries()
+            lock.hook = None
+            got = U.get_cell_size()
+            if (tuple(got) if got else None) != (10, 20):
+                problems.append(f"enable_queries() with a get_cell_size() in another thread {point}: afterwards get_cell_size() = {got}, "
+                                f"the terminal answers (10, 20)")
+        lock.hook = None
+        inflight("enable_queries", term_image.disable_queries, want=(10, 20))
+        # ... and the two memoized query functions: a call in another thread right after each answer is dropped
+        for fn_name, fresh_on in (("get_terminal_name_version", None), ("get_fg_bg_colors", None)):
+            f = getattr(U, fn_name)
+            orig_inval = f._invalidate_cache
+            U.query_terminal = lambda *a, **k: None
+            term_image.disable_queries()
+            orig_inval()
+            off_value = f()
+            # what the function gives once queries are on (a scripted terminal)
+            script = {"get_terminal_name_version": b"\x1bP>|tname 1.2\x1b\\\x1b[?62;c",
+                      "get_fg_bg_colors": b"\x1b]10;rgb:ffff/0000/0000\x1b\\\x1b]11;rgb:0000/ffff/0000\x1b\\\x1b[?62;c"}[fn_name]
+            U.query_terminal = lambda *a, script=script, **k: (script if U._queries_enabled else None)
+
+            def racing_inval(f=f, orig_inval=orig_inval):
+                orig_inval()
+                elsewhere(f)
+            setattr(f, "_invalidate_cache", racing_inval)
+            try:
+                term_image.enable_queries()
+            finally:
+                setattr(f, "_invalidate_cache", orig_inval)
+            got = f()
+            orig_inval()
+            want = f()
+            if got != want:
+                problems.append(f"enable_queries() with a {fn_name}() in another thread right after its memoized answer is dropped: "
+                                f"afterwards {fn_name}() = {got!r}, a fresh call gives {want!r}")
+            orig_inval()
+    finally:
+        U.fcntl.ioctl, U.get_terminal_size, U.query_terminal, U._tty_fd, U._cell_size_lock = saved
+        U.read_tty = saved_read
+        term_image.enable_queries()
+        term_image.disable_win_size_swap()
+        U._cell_size_cache[:] = (0,) * 4
+    return {"reproduced": bool(problems), "input": "scheduled second-thread getters around each toggle", "observed": problems[:3]}
+
+
+def get_cell_size_any(m, meta):
+    """sequential histories first; then the scheduled two-thread histories (a value computed from settings read before the lock is taken
+    fails only there)"""
+    r = get_cell_size(m, meta, n_hist=2000)
+    if r.get("reproduced"):
+        return r
+    r2 = toggle_publication(m, meta)
+    r2["input"] = "2000 sequential histories (nothing found); " + r2["input"]
+    return r2
